@@ -4,6 +4,8 @@ from specs import streams, ratelimit, local, s3, b2
 LEVEL = 'proof'
 # the adapters move the payload in pieces of the chunk size the command passes (premise d <= L/4 reaches the limiter)
 UNITS = ratelimit.units('C20') + local.units('C20')[1:3] + s3.method_units('C20')[6:7] + s3.method_units('C20')[8:9] + b2.units('C20')[1:3] + streams.units('C20')
+from specs import families as _families
+UNITS = _families.with_families('C20', UNITS)
 BOUNDED = [
     {'name': 'C20.e2e.window', 'script': 'bounded/c20_e2e.py', 'timeout': 900,
      'bound': 'the four rate-limited commands (snapshot, restore, upload-objects, download-objects) on a recording local backend under a virtual '
